@@ -226,6 +226,21 @@ let run_romfs toks =
      | Err e -> "e:" ^ err_name e)
   | _ -> failwith "romfs args"
 
+(* romfspath <dirmeta> <filemeta> <path as UTF-16 code units, comma separated hex; "-" for the empty path>
+   -> the entry the path names in case-sensitive mode (same dump as romfs, children left out) | e:Err *)
+let run_romfspath toks =
+  match toks with
+  | [dm; fm; path] ->
+    let units = if path = "-" then [] else Stdlib.List.map z_of_hex (String.split_on_char ',' path) in
+    (match walk_bounded (bytes_of_hex dm) (bytes_of_hex fm) with
+     | Err e -> "walk-e:" ^ err_name e
+     | Ok root ->
+       (match RomfsPath.lookup_path units root with
+        | Err e -> "e:" ^ err_name e
+        | Ok (NDir (nm, ch)) -> "D" ^ hex_of_bytes nm ^ "," ^ string_of_int (Stdlib.List.length ch)
+        | Ok (NFile (nm, o, s)) -> "F" ^ hex_of_bytes nm ^ "," ^ hex_of_z o ^ "," ^ hex_of_z s))
+  | _ -> failwith "romfspath args"
+
 (* ncsd <0x100 header bytes>  ->  idx,offset,size ... | e:Err *)
 let run_ncsd toks =
   match toks with
@@ -459,6 +474,12 @@ let run_codec toks =
        | Ok bs -> String.concat "," (Stdlib.List.map (fun b -> hex_of_z b.CfgSave.b_id ^ ":" ^ hex_of_z b.CfgSave.b_flags ^ ":" ^
                                        (let h = hex_of_bytes b.CfgSave.b_data in String.sub h 2 (String.length h - 2))) bs)
                   ^ " " ^ (match CfgSave.cfg_bytes bs with Ok r -> hex_of_bytes r | Err e -> "e:" ^ err_name e))
+  | ["apptitle"; d] ->
+      (* 0x200 bytes -> the three strings as code points (hex, comma separated; "-" for empty), then the re-serialisation *)
+      let cps l = if l = [] then "-" else String.concat "," (Stdlib.List.map hex_of_z l) in
+      (match AppTitle.title_parse (bytes_of_hex d) with
+       | Err e -> "e:" ^ err_name e
+       | Ok t -> cps t.AppTitle.short_desc ^ " " ^ cps t.AppTitle.long_desc ^ " " ^ cps t.AppTitle.publisher ^ " " ^ hex_of_bytes (AppTitle.title_bytes t))
   | _ -> failwith "codec args"
 
 let dispatch (line : string) : string =
@@ -473,6 +494,7 @@ let dispatch (line : string) : string =
   | "ranges" :: toks -> run_ranges toks
   | "fulldec" :: toks -> run_fulldec toks
   | "romfs" :: toks -> run_romfs toks
+  | "romfspath" :: toks -> run_romfspath toks
   | "ncsd" :: toks -> run_ncsd toks
   | "sdkey" :: toks -> run_sdkey toks
   | "ivfc" :: toks -> run_ivfc toks
